@@ -6,6 +6,7 @@
 //!                                             is refused (already bound), so it reports too-many-retries
 //!   rec takeover <max_attempts>               the same, but the first replier leaves while the second still has
 //!                                             attempts left: the second one binds and serves
+//!   rec siblings <outages> <max_attempts>     two subscribers of one client (one shared connection) lose it together
 //!   rec quiet <outages> <max_attempts>        a subscriber on a topic nobody publishes to during the outages
 //!                                             (nothing resets anything in between); one message at the end
 //! Implementation line: one token per outage: `ok` (traffic after recovery was carried), `lost`, `err:<e>`;
@@ -110,6 +111,36 @@ async fn case(addr: SocketAddr, certs: &Certs, kind: &str, outages: usize, attem
                     Ok(None) => "ended".into(),
                     Err(_) => "lost".into(),
                 });
+            }
+        }
+        "siblings" => {
+            // two subscribers opened from ONE client (they share its connection) lose it together and re-establish
+            // themselves in turn: once things have settled, both must receive everything that is published
+            let topic = format!("/verif/rec{n}");
+            let mut subs = vec![];
+            for _ in 0..2 { subs.push(flaky.subscriber(&topic).with_decoder(StringCodec).open().await?); }
+            tokio::time::sleep(Duration::from_millis(40)).await;
+            let mut publ = stable.publisher(&topic).with_encoder(StringCodec).open().await?;
+            let (tx, mut rx) = tokio::sync::mpsc::unbounded_channel::<(usize, String)>();
+            for (i, mut sub) in subs.into_iter().enumerate() {
+                let tx = tx.clone();
+                tokio::spawn(async move { while let Some(item) = sub.next().await { match item { Ok(s) => { let _ = tx.send((i, s)); } Err(e) => { let _ = tx.send((i, format!("ERR:{}", errname(&e)))); break; } } } });
+            }
+            for k in 0..outages {
+                flaky.verif_close_connection().await;
+                let rounds = 9;
+                for j in 0..rounds { publ.send(format!("m{k}.{j}")).await?; tokio::time::sleep(Duration::from_millis(220)).await; }
+                tokio::time::sleep(Duration::from_millis(300)).await;
+                let mut got: [Vec<String>; 2] = [vec![], vec![]];
+                while let Ok((i, s)) = rx.try_recv() { got[i].push(s); }
+                // the last three messages of the round were published well after every stream had time to recover
+                let tail: Vec<String> = (rounds - 3..rounds).map(|j| format!("m{k}.{j}")).collect();
+                let mut res = "ok".to_string();
+                for (i, g) in got.iter().enumerate() {
+                    if let Some(e) = g.iter().find(|x| x.starts_with("ERR:")) { res = e[4..].to_string(); break; }
+                    if !tail.iter().all(|m| g.contains(m)) { res = format!("lost:sub{i}"); break; }
+                }
+                out.push(res);
             }
         }
         "closing" => {
@@ -376,6 +407,7 @@ pub fn run(cfg: &Cfg) {
         cases.push("rec displaced 0".into());
         cases.push("rec takeover 40".into());
         cases.push("rec subone 3 2".into());
+        cases.push("rec siblings 2 3".into());
         cases.push("rec closing 2 3".into());
         cases.push("rec quiet 3 1".into());
         cases.push("rec quiet 5 2".into());
